@@ -79,6 +79,16 @@ def make_store(kind, path):
     return s
 
 
+def reopen(kind, path):
+    from xandikos.icalendar import ICalendarFile
+    from xandikos.vcard import VCardFile
+    from xandikos.store.git import GitStore
+    s = GitStore.open_from_path(path)
+    s.load_extra_file_handler(ICalendarFile)
+    s.load_extra_file_handler(VCardFile)
+    return s
+
+
 def run_audit(kind, dirs):
     """audit many snapshot directories in ONE fresh process"""
     if not dirs:
